@@ -456,7 +456,10 @@ Qed.
 Lemma runt_returns_by sigma now eps D e i o :
   bounded sigma o -> 0 <= sigma ->
   exists r, t_ret (wos (fg_params now eps D e i) o) = Some r /\
-            r <= Z.max (match e with Some ee => ee | None => 0 end) (D + eps - (grace_reserve - 1) * grace (D - now)) + 7 * sigma.
+            r <= (match e with
+                  | Some ee => Z.max ee (D + eps - (grace_reserve - 1) * grace (D - now))
+                  | None => D + eps - (grace_reserve - 1) * grace (D - now)
+                  end) + 7 * sigma.
 Proof.
   intros B Hs. pose proof (grace_ge_min (D - now)) as G.
   assert (HK : 0 < tK (fg_params now eps D e i)).
